@@ -34,6 +34,9 @@ def known(repo, fn, node, envs=None, pm=None):
                 _found(repo, fn, envs, g["cond"]["expr"], out)
         elif g["k"] == "ForLoop":
             _filters(repo, fn, envs, g["iter"], out)
+        elif g["k"] == "Closure" and id(g) in pm and pm[id(g)][0]["k"] == "MethodCall" and pm[id(g)][1] == "args" and pm[id(g)][0]["method"] in ("map", "for_each", "try_for_each", "filter_map", "flat_map", "find_map", "inspect", "extend"):
+            # the closure runs on the elements that the filters further up the chain let through
+            _filters(repo, fn, envs, pm[id(g)][0]["recv"], out)
     for kind, c, st in A.preceding_guards(node, pm):
         if kind == "if":
             add(c, False)
